@@ -425,13 +425,24 @@ func c09Sched(c *vrep.Ctx) {
 		// the explored interleaving, not by an earlier execution
 		cl := mk()
 		got := make([]string, nthreads)
+		// the callers' inputs are ADJACENT sub-slices of one buffer (members of an archive, pieces of a
+		// mapped file): each slice's capacity reaches into its neighbour, which belongs to another call
+		var arena []byte
+		offs := make([]int, nthreads+1)
+		for t := 0; t < nthreads; t++ {
+			offs[t] = len(arena)
+			arena = append(arena, inputs[pick[t]]...)
+		}
+		offs[nthreads] = len(arena)
+		arena = append(arena, "\xee\xee\xee\xee"...)
+		pristine := append([]byte(nil), arena...)
 		s.Main(func() {
 			var wg vsync.WaitGroup
 			wg.Add(nthreads)
 			for t := 0; t < nthreads; t++ {
 				t := t
 				vsync.Go(fmt.Sprintf("caller%d", t), func() {
-					in := inputs[pick[t]]
+					in := arena[offs[t]:offs[t+1]]
 					if t%2 == 1 && c.Param("api", "mixed") != "match" {
 						res, err := cl.MatchFrom(bytes.NewReader(in))
 						got[t] = vFmt(res)
@@ -468,6 +479,13 @@ func c09Sched(c *vrep.Ctx) {
 			// Match on the unchanged tree takes no lock and therefore may not write to anything reachable
 			// from the classifier; code that synchronises may keep state (a guarded cache), which the
 			// access jobs and the result comparison judge instead
+			if msg == "" && !bytes.Equal(arena, pristine) {
+				at := 0
+				for at < len(arena) && arena[at] == pristine[at] {
+					at++
+				}
+				msg = fmt.Sprintf("the buffer holding the callers' inputs was modified at offset %d (inputs end at %v): %q became %q", at, offs[1:], pristine[at], arena[at])
+			}
 			if msg == "" && s.SyncOps == 0 && vStateHash(cl, false) != h0 {
 				msg = "classifier state changed by concurrent Match calls that use no synchronisation"
 			}
